@@ -20,11 +20,13 @@ def run(ctx):
         mc_cyc.run_zerox(ctx, 'C03', 6, 2)
         extrema_tv.run(ctx, 200, PREFIXES, kinds=kinds)
         pipeline.run_corpus(ctx, 80, PREFIXES, seed_offset=3, kinds=kinds)
+        pipeline.run_large(ctx, PREFIXES, 3, 3, 1)          # beyond small scopes: long cycles, long recordings
     else:
         mc_cyc.run_zerox(ctx, 'C03', 7, 2)
         mc_cyc.run_zerox(ctx, 'C03', 6, 3)
         extrema_tv.run(ctx, 3000, PREFIXES, kinds=kinds, max_len=2600)
         pipeline.run_corpus(ctx, 1500, PREFIXES, seed_offset=3, kinds=kinds, max_len=2600)
+        pipeline.run_large(ctx, PREFIXES, 3, 12, 6)          # beyond small scopes: long cycles, long recordings
 
 
 def replay(ctx, case):
